@@ -193,23 +193,33 @@ func C15(c *fw.Ctx) {
 		n := 0
 		for _, name := range names {
 			d := docs[name]
-			if !d.scanOK || d.base == nil || !d.base.Accepted {
+			if !d.scanOK || d.base == nil || d.base.Panic != nil || d.base.Fatal != nil {
 				continue
 			}
-			js := findOut(d.base, "json")
-			if js == nil || js.Bytes == nil {
+			var bv interface{} = (*ref.Obj)(nil)
+			if d.base.Accepted {
+				js := findOut(d.base, "json")
+				if js == nil || js.Bytes == nil {
+					continue
+				}
+				var err error
+				if bv, err = ref.ParseJSON(js.Bytes); err != nil {
+					continue
+				}
+			} else if d.base.Err == nil {
 				continue
 			}
-			bv, err := ref.ParseJSON(js.Bytes)
-			if err != nil {
-				continue
-			}
+			// (a rejected original gets here only if the scanner accepts its text and the reference automaton finds its blocks
+			// well nested: it was rejected by a rule, not by the lexical or the context layer)
 			blocks, ok := topBlocks(d)
 			if !ok || len(blocks) < 3 {
 				c.Inc("documents", "out-of-scope-or-too-few-blocks", 1)
 				continue
 			}
 			c.Inc("documents", "permuted", 1)
+			if !d.base.Accepted {
+				c.Inc("documents", "permuted-rejected-original", 1)
+			}
 			r := gen.Rng(c.Seed, c.ID, "perm", name)
 			for _, p := range permutations(len(blocks)-1, limit, r) {
 				moved := false
@@ -256,6 +266,13 @@ func C15(c *fw.Ctx) {
 			Results: []interface{}{d.base, res}, Expected: map[string]interface{}{"document": d.name, "permutation": p.perm}}
 		if sig, what := crashSig(res); sig != "" {
 			c.Violate(sig, what, rp)
+			return
+		}
+		if !d.base.Accepted {
+			// a document rejected by a rule (not by the scanner) stays rejected however its blocks are ordered
+			if res.Accepted {
+				c.Violate("rejected-becomes-accepted", fmt.Sprintf("%s is rejected (%q) but permutation %v of its blocks is accepted: the verdict depends on the order of the blocks", d.name, trunc(d.base.Err.Msg, 120), p.perm), rp)
+			}
 			return
 		}
 		if !res.Accepted {
